@@ -411,8 +411,13 @@ let run_lr tk =
     | Base.Fuel -> raise (Stop "FUEL")
   done
 
+(* every word of every star-free rule of the rule table translated from lexer.l (keyword spellings) *)
+let run_spellings () =
+  L.iter (fun (r, _) -> if SpecLex.star_free r then L.iter (fun w -> pr "%s " (hexs w)) (SpecLex.lang r)) Gen_Lexer.rules
+
 let run_case tk =
   match next tk with
+  | "spellings" -> run_spellings ()
   | "extract" -> run_extract tk
   | "parse" -> run_parse tk
   | "compile" -> run_compile tk
